@@ -10,7 +10,8 @@ from . import libcommon
 THEOREMS = ["c11_response_preserved", "c11_fails_iff_custom_message", "c11_every_standard_message_kind_is_bridged",
             "c11_arm_present_iff_kind_exists_under_every_feature_set"]
 THEOREMS_T = ["c11_translated_into_response_preserves_under_every_feature_set", "c11_translated_into_response_preserves",
-              "c11_translated_into_response_fails_on_custom", "c11_translated_into_msg"]
+              "c11_translated_into_response_fails_on_custom", "c11_translated_into_msg",
+              "c11_translated_bridged_arms", "c11_translated_bridged_context"]
 
 
 def b64(s):
